@@ -119,6 +119,9 @@ func blocker(kind, pidfile string) string {
 		return "i=0; while [ $i -lt 6000000 ]; do i=$((i+1)); done"
 	case "ignore-int":
 		return fmt.Sprintf("sh -c 'trap \"\" INT; echo $$ >> %s; exec sleep 30'", pidfile)
+	case "trap-exit":
+		// handles the interrupt itself and leaves with a status of its own (what a careful script does)
+		return fmt.Sprintf("sh -c 'echo $$ >> %s; trap \"kill \\$p; exit 7\" INT TERM; sleep 30 & p=$!; wait $p'", pidfile)
 	case "ticker":
 		// ignores the interrupt and keeps reporting that it is alive (TICK tokens in the trace next to the pid file)
 		return fmt.Sprintf("sh -c 'trap \"\" INT; echo $$ >> %s; i=0; while [ $i -lt 200 ]; do printf \"TICK\\n\" >> %s; sleep 0.1; i=$((i+1)); done'", pidfile, strings.TrimSuffix(pidfile, "pids")+"trace")
@@ -194,10 +197,14 @@ func modeCancel1(a args) {
 		defer pw.Close()
 		tr.Stdin = pr
 	}
+	// a named context nothing has used yet when the cancellation completes: bringing it up is starting a command
+	freshCtx := runner.NewExecutionContext(&utils.Binary{}, "", variables.NewVariables(), []string{tok("UP:fresh")}, []string{tok("DOWN:fresh")}, []string{tok("CB:fresh")}, nil)
+	tr.SetContexts(map[string]*runner.ExecutionContext{"fresh": freshCtx})
 	if sp.Prelude != "" {
 		// an earlier run on this runner ended before it really began (unknown context, context that cannot be
 		// brought up, failing context hook): nothing of it is in flight afterwards
 		tr.SetContexts(map[string]*runner.ExecutionContext{
+			"fresh":      freshCtx,
 			"bad-up":     runner.NewExecutionContext(&utils.Binary{}, "", variables.NewVariables(), []string{"exit 1"}, nil, nil, nil),
 			"bad-before": runner.NewExecutionContext(&utils.Binary{}, "", variables.NewVariables(), nil, nil, []string{"exit 1"}, nil),
 		})
@@ -493,6 +500,7 @@ func modeCancel1(a args) {
 	}
 	// a run started after cancellation completed must fail without executing anything
 	late := mkTask("late")
+	late.Context = "fresh"
 	lateRet := make(chan error, 1)
 	go func() { lateRet <- tr.Run(late) }()
 	select {
@@ -560,6 +568,9 @@ func modeCancel1(a args) {
 			if i > cret && t == "TICK" {
 				fail("command-still-running-after-cancel-returned", "a command that was in flight wrote to the trace after CANCEL_RET: cancellation returned before the command had been terminated")
 				break
+			}
+			if i > cret && (t == "UP:fresh" || t == "CB:fresh") {
+				fail("command-started-after-cancel-returned/context-hook", fmt.Sprintf("token %s appears after CANCEL_RET: the run requested after the cancellation was refused, yet a command of its execution context was started", t))
 			}
 			if i > cret && (strings.HasPrefix(t, "S:") || strings.HasPrefix(t, "B:") || strings.HasPrefix(t, "A2:") || (strings.HasPrefix(t, "A:") && strings.HasSuffix(t, ":E"))) {
 				fail("command-started-after-cancel-returned", fmt.Sprintf("token %s appears after CANCEL_RET", t))
